@@ -18,7 +18,7 @@ var capacities = []int{1, 63, 64, 65, 1000, 1024, 16384, 16385, 40000}
 // bits ("e14884"/"e28738"; found by hashing e0,e1,...).
 var enumAlphabet = []string{"", "a", "b", "c", "e14884", "e28738", "with\x00nul", "caf\xc3\xa9", "\xff\xfe", strings.Repeat("x", 300)}
 
-var keyAlphabet = []string{"k0", "k1", "k2", "k3", "k4", ""}
+var keyAlphabet = []string{"k0", "k1", "k2", "k3", "k4", "", "k", "k10"} // incl. the empty key and keys that are prefixes of other keys
 
 func genBits(t *rapid.T, k Kind, label string) uint64 {
 	if k.Float() {
@@ -306,6 +306,9 @@ func genTxn(t *rapid.T, m *Model, recent []uint32, cfg TxnCfg) TxnSpec {
 		cfg.MaxSteps = 12
 	}
 	n := rapid.IntRange(1, cfg.MaxSteps).Draw(t, "nsteps")
+	if cfg.Peeks && rapid.IntRange(0, 15).Draw(t, "empty-body") == 0 {
+		n = 0 // a transaction that does nothing (or only reads through accessors, see Touch): no effect, nothing emitted
+	}
 	spec := TxnSpec{FailAt: -1}
 	keyed := m.Sch.Key >= 0
 	var inserts []int // indexes of successful insert steps (for own updates)
